@@ -261,7 +261,43 @@ def idem_case(item):
     return ("ok", viols[:20], nruns)
 
 
+def backtest_case(spec):
+    """a finished backtest: a redundant update of the last date changes nothing that was recorded
+    (the loop has closed the books on every date, whatever the algos left pending)"""
+    from .. import runcheck, runfam as R
+
+    res = runcheck.execute(spec)
+    if res["status"] != "ok":
+        return (res["status"], [], 0)
+    b = res["b"]
+    h0 = _plain(res["hist"])
+    viols = []
+    for k in (1, 2):
+        b.strategy.update(b.strategy.now)
+        h1 = _plain(R.run_histories(b))
+        if not same(h0, h1):
+            diff = []
+            for name in h0:
+                for s_ in h0[name]:
+                    if not same(h0[name][s_], h1.get(name, {}).get(s_)):
+                        diff.append((name, s_))
+            viols.append({"rule": "update_after_run_changes_history", "expected": "recorded histories unchanged by a redundant update of the last date", "observed": diff[:6], "where": {"updates": k}})
+            break
+    # the same backtest with a redundant root.update(now) at the end of the stack on every date
+    if spec.get("tree", "flat").startswith("flat") and not viols:
+        sp2 = dict(spec, stack=dict(spec.get("stack") or {}, tail_update=True))
+        res2 = runcheck.execute(sp2)
+        if res2["status"] == "ok":
+            h2 = _plain(res2["hist"])
+            if not same(h0, h2):
+                diff = [(name, s_) for name in h0 for s_ in h0[name] if not same(h0[name][s_], h2.get(name, {}).get(s_))]
+                viols.append({"rule": "redundant_update_in_stack_changes_history", "expected": "identical histories with and without a redundant update at the end of the stack", "observed": diff[:6], "where": {"tail_update": True}})
+    return ("ok", viols, len(res["trades"]))
+
+
 def replay(case):
+    if case.get("kind") == "backtest":
+        return backtest_case(case["spec"])[1]
     if case.get("kind") == "fresh":
         vs = fresh_reads_case((case["spec"], case["history"]))[1]
     else:
@@ -340,3 +376,15 @@ def run(ctx):
                     ctx.violation(dict(v, build=kind, module=MOD, case={"kind": "idem", "spec": spec, "history": h, "where": v.get("where")}))
             ctx.extra.setdefault("deviations", []).append({"config": label, "build": kind, "prefixes": len(prefixes), "read_comparisons": ncmp, "histories": len(hists), "idempotence_runs": nr})
             ctx.sample({"config": label, "history": hists[len(hists) // 2], "deviation": "1/2/3 updates at every position; first read of every (node, property) after every prefix"})
+        from .. import runfam as R
+
+        fam = [s_ for s_ in R.family("quick", ctx.seed) if s_["stack"]["rebal"] in ("lazy", "overtime") or s_["stack"]["gate"] in ("weekly", "monthly", "pte", "once") or s_["stack"]["mod"] != "none"]
+        nb = 0
+        for spec, (status, viols, ntr) in ctx.run(kind, MOD, "backtest_case", fam, chunksize=4):
+            ctx.add(states=1 if status == "ok" else 0, transitions=3, traces_validated_against_impl=1, evaluations=1)
+            if status == "ok" and ntr:
+                nb += 1
+                ctx.mark(("backtest", kind, json.dumps(spec, sort_keys=True)))
+            for v in viols:
+                ctx.violation(dict(v, build=kind, module=MOD, case={"kind": "backtest", "spec": spec}))
+        ctx.extra.setdefault("finished_backtests", []).append({"build": kind, "runs": len(fam), "with_trades": nb})
